@@ -257,6 +257,11 @@ def run_driver(lines, timeout=1800):
     data = '\n'.join(lines) + '\n'
     try:
         rc, out, err = _run(['lake', 'env', 'lean', '--run', 'Driver.lean'], timeout, input=data)
+        if rc != 0 and out.count('\n') <= 1:
+            # the driver did not start (typically: another process was rebuilding the project underneath it):
+            # rebuild under the lock and try once more
+            lake_build(['GeoVerif.Drv.Main'])
+            rc, out, err = _run(['lake', 'env', 'lean', '--run', 'Driver.lean'], timeout, input=data)
     except subprocess.TimeoutExpired:
         raise InfraError('model driver timed out')
     outs = out.split('\n')
